@@ -146,7 +146,7 @@ func genC12(r *Rng, e *Emitter, n int) {
 			bx, by = pt()
 		}
 		var cx, cy, dx, dy int
-		cfg := r.Intn(7)
+		cfg := r.Intn(8)
 		lerp := func(k, m int) (int, int) { return ax + (bx-ax)*k/m, ay + (by-ay)*k/m }
 		switch cfg {
 		case 0: // random
@@ -169,6 +169,26 @@ func genC12(r *Rng, e *Emitter, n int) {
 		case 5: // parallel
 			ox, oy := r.Intn(5)-2, r.Intn(5)-2
 			cx, cy, dx, dy = ax+ox, ay+oy, bx+ox, by+oy
+		case 7: // ab parallel to an axis (its envelope has no height, or no width), cd reaching far across it
+			h := 1 + r.Intn(g)
+			k := 1 + r.Intn(4*g)
+			if r.chance(1, 2) {
+				by = ay
+				for bx == ax {
+					bx, _ = pt()
+				}
+				cx, _ = pt()
+				dx, _ = pt()
+				cy, dy = ay-h, ay+k
+			} else {
+				bx = ax
+				for by == ay {
+					_, by = pt()
+				}
+				_, cy = pt()
+				_, dy = pt()
+				cx, dx = ax-h, ax+k
+			}
 		default: // collinear disjoint
 			cx, cy = bx+(bx-ax), by+(by-ay)
 			dx, dy = bx+2*(bx-ax), by+2*(by-ay)
